@@ -49,7 +49,7 @@ def gen_dataset(rng, cfg):
         attrs = {
             'a': ival(),
             'b': ival(),
-            's': ('s', rng.choice(['ab', 'abc', 'b', 'ca'])),
+            's': ('s',) if (cfg.falsy and rng.random() < 0.25) else ('s', rng.choice(['ab', 'abc', 'b', 'ca'])),
             'flag': ('b', rng.randint(0, 1)),
             'items': ('l',) + tuple(('i', rng.randint(lo, hi)) for _ in range(rng.randint(0, 3))),
             't': ('t', ('i', rng.randint(lo, hi)), ('i', rng.randint(lo, hi))),
@@ -153,7 +153,7 @@ class CondGen:
                 cont = ('attr', 'items', self.obj_term())
             return ('in', item, cont) if rng.random() < 0.5 else ('contains', cont, item)
         if r < 0.76 and cfg.membership:
-            sub = ('lit', ('s', rng.choice(['a', 'b', 'c', 'ab'])))
+            sub = ('lit', rng.choice([('s', 'a'), ('s', 'b'), ('s', 'c'), ('s', 'ab'), ('s',)]))      # '' included
             cont = ('attr', 's', self.obj_term())
             return ('in', sub, cont) if rng.random() < 0.5 else ('contains', cont, sub)
         if r < 0.84:
@@ -242,7 +242,7 @@ def apply_or_template(rng, cfg, case):
     ax = g.atom()
     g.var_ids = [z]
     az = g.atom()
-    variant = rng.choice((0, 0, 1, 2))
+    variant = rng.choice((0, 1, 2, 3, 3))
     if variant == 0:
         disj = ('or', join('a', 'a'), rng.choice([join('b', 'a'), join('a', 'b'), ax]))
         case['cond'] = [rng.choice([('and', disj, az), ('and', az, disj)])] if rng.random() < 0.5 else \
@@ -256,8 +256,13 @@ def apply_or_template(rng, cfg, case):
         yz = g.atom()
         if variant == 1:
             case['cond'] = [('and', join('a', 'a'), ('and', ('or', px, qx), yz))]
-        else:
+        elif variant == 2:
             case['cond'] = [('and', az, ('or', ('and', px, qx), join('b', 'b')))]
+        else:
+            # a conjunction of TWO disjunctions that both use the join variable z, which is not selected
+            g.var_ids = [z]
+            yz2 = g.atom()
+            case['cond'] = [('and', ('or', px, join('a', 'b')), ('or', yz, yz2))]
     case['sel'] = [('var', x)] if rng.random() < 0.7 else [('var', v) for v in ids if v != z]
     case['entity'] = len(case['sel']) == 1 and rng.random() < 0.5
     return case
